@@ -11,6 +11,7 @@ let z_of_int n = if n = 0 then Z0 else if n > 0 then Zpos (pos_of_int n) else Zn
 let rec int_of_pos = function XH -> 1 | XO p -> 2 * int_of_pos p | XI p -> 2 * int_of_pos p + 1
 let int_of_z = function Z0 -> 0 | Zpos p -> int_of_pos p | Zneg p -> - (int_of_pos p)
 let rec nat_of_int n = if n <= 0 then O else S (nat_of_int (n - 1))
+let rec int_of_nat = function O -> 0 | S n -> 1 + int_of_nat n
 
 let split_on s sep = Str.split_delim (Str.regexp_string sep) s
 let trim = String.trim
@@ -53,6 +54,7 @@ let out_s = function
   | OKV o -> okv_s o
   | OList l -> list_s l
   | OLists (a, b) -> list_s a ^ ";" ^ list_s b
+  | OListN (l, n) -> list_s l ^ ";calls=" ^ string_of_int (int_of_nat n)
 
 let parse_hist h : (z, z) mut list =
   if h = "-" || h = "" then [] else
@@ -114,7 +116,7 @@ let field s name =
 let is_api_query op0 toks =
   match op0 with
   | "P" | "D" | "Dm" | "DM" | "DA" | "Sz" | "E" | "G" | "Mn" | "Mx" | "F" | "C" | "Sel" | "R" | "Rg" | "RS"
-  | "All" | "Any" | "Allm" | "Sm" | "Pm" | "Eq" -> true
+  | "All" | "AS" | "Any" | "Allm" | "Sm" | "Pm" | "Eq" -> true
   | "T" | "TS" -> (match ios toks.(1) with 2 | 3 | 6 | 7 -> true | _ -> false)
   | _ -> false
 
@@ -191,6 +193,7 @@ let () =
             | "All" -> run_op (Q QAll)
             | "T" -> run_op (Q (QTraverse (order_of_int (ios toks.(1)))))
             | "TS" -> run_op (Q (QTraverseStop (order_of_int (ios toks.(1)), nat_of_int (ios toks.(2)))))
+            | "AS" -> run_op (Q (QTraverseStop (Ascending, nat_of_int (ios toks.(1)))))   (* All() is _traverse(Ascending) *)
             | "Any" -> run_op (Q (QAnyMatch (pred (ios toks.(1)))))
             | "Allm" -> run_op (Q (QAllMatch (pred (ios toks.(1)))))
             | "Fm" -> run_op (Q (QFirstMatch (pred (ios toks.(1)))))
